@@ -647,12 +647,9 @@ class TaskPool:
                 # Re-prepare same submit.
                 itask.submit_num -= 1
 
-            # Running or finished task can have completed custom outputs.
-            if itask.state(
-                    TASK_STATUS_RUNNING,
-                    TASK_STATUS_FAILED,
-                    TASK_STATUS_SUCCEEDED
-            ):
+            # Restore completed outputs (a task waiting to retry, or one
+            # that submit-failed or expired, has completed outputs too).
+            if outputs_str:
                 completed = json.loads(outputs_str)
                 # {trigger: message} - match triggers, not messages
                 # (BACK COMPAT: a list of messages in Cylc >8.0.0,<8.3.0).
